@@ -36,7 +36,8 @@ MODES = (True, False, None)
 def bounds(tier):
     if tier == "quick":
         return dict(species=len(VEC_Q), sides=[(1, 1), (1, 2), (2, 1), (2, 2), (1, 3), (3, 1)], dup_sides=[(2, 2)], formulas=len(FORMULAS), formula_sides=[(1, 1), (1, 2), (2, 1), (2, 2)])
-    return dict(species=len(VEC_T), sides=[(1, 1), (1, 2), (2, 1), (2, 2), (1, 3), (3, 1), (2, 3), (3, 2), (3, 3)], dup_sides=[(2, 2), (2, 3), (3, 2), (3, 3)], formulas=len(FORMULAS),
+    return dict(species=len(VEC_T), sides=[(1, 1), (1, 2), (2, 1), (2, 2), (1, 3), (3, 1), (2, 3), (3, 2)], sides_on_the_12_species_alphabet=[(3, 3)],
+                dup_sides=[(2, 2), (2, 3), (3, 2)], formulas=len(FORMULAS),
                 formula_sides=[(1, 1), (1, 2), (2, 1), (2, 2), (2, 3), (3, 2)])
 
 
@@ -51,6 +52,9 @@ def chunks(tier):
     for nr, np_ in b["sides"]:
         for first in range(n):
             out.append(("V", nr, np_, first))
+    for nr, np_ in b.get("sides_on_the_12_species_alphabet", []):
+        for first in range(len(VEC_Q)):
+            out.append(("W", nr, np_, first))
     for nr, np_ in b["dup_sides"]:
         for first in range(n):
             out.append(("D", nr, np_, first))
@@ -355,6 +359,8 @@ def run_chunk(chunk, tier):
         res.symbols["long-" + cls] += 1
         res.sample(dict(layer="L", species=nr + (2 if first == 2 else 1), pattern=first, cls=cls))
         return res
+    if kind == "W":  # the deepest side bound, on the small alphabet
+        kind, tier = "V", "quick"
     n = len(FORMULAS) if kind == "F" else len(_vec(tier))
     idx = list(range(n))
     if kind in ("V", "F"):
